@@ -310,10 +310,20 @@ inline void install()
     setitimer(ITIMER_REAL, &tv, nullptr);   // watchdog tick: a call that spans two ticks (2-4 s) is reported as a hang
     atexit(on_exit_report);
 }
+// The stack area the library call is going to use is pre-filled with a constant: a result that depends on an
+// uninitialised local of the library (seen: llhstype in rtosc_skip_next_printed_arg) is then the same in a full run
+// and in a replay, instead of depending on what the harness did before.
+__attribute__((noinline)) static void poison_stack()
+{
+    volatile char a[16384];
+    memset((void *)a, 0x5a, sizeof a);
+    asm volatile("" ::: "memory");
+}
 // 0 = completed, otherwise the signal (SIGALRM = hang)
 template <class F> inline int fenced(F &&f)
 {
     install();
+    poison_stack();
     int sig = sigsetjmp(g_jmp, 0);   // handlers run with SA_NODEFER and an empty sa_mask: nothing to restore, and no syscall per call
     if(sig == 0) { g_serial = g_serial + 1; g_armed = 1; f(); g_armed = 0; return 0; }
     return sig;
